@@ -122,7 +122,8 @@ def _handle_desc(job, public=False):
         try:
             d["sp"] = job.statepoint()
             d["csp"] = dict(job.cached_statepoint)
-            d["docpath"] = os.path.dirname(job.document.filename)
+            if os.path.isdir(job.path):
+                d["docpath"] = os.path.dirname(job.document.filename)
         except Exception as e:  # noqa
             d["sp"] = d["csp"] = "!" + type(e).__name__
         return d
@@ -149,7 +150,7 @@ def judge_c04(w, st, pre, post, res, val):
             return out
         pname = os.path.basename(job.project.path)
         oldp, newp = "%s/workspace/%s/" % (pname, old["id"]), "%s/workspace/%s/" % (pname, job.id)
-        if res == "ok" and job.id != old["id"] and (oldp in pre):
+        if res == "ok" and job.id != old["id"] and (oldp + W.SP_FILE in pre):      # an initialised job was re-keyed
             if oldp in post:
                 out.append(("rekey-old-id-remains:" + op, "after %s the old id directory still exists" % op))
             if payload(post, newp) != payload(pre, oldp) or newp not in post:
@@ -374,11 +375,11 @@ def replay_behaviour(uni, projects, states, judge, base, stop_on_mismatch=True):
             w.is_last = k == len(states) - 2
             res, val = w.do(st["last"])
             post = core.snapshot(w.base)
+            bad = W.compare(st, w, res, val, projects)      # before the judge: judging may touch lazy state on the last step
             if judge:
                 with observer_isolation():
                     for sig, what in judge(w, st, pre, post, res, val):
                         verdicts.append((k, sig, what))
-            bad = W.compare(st, w, res, val, projects)
             if bad:
                 mismatch = (k, bad)
                 if stop_on_mismatch:
